@@ -99,10 +99,10 @@ PLANS = {
     "C02": dict(cases=both(unit2_cases(), step_cases(["deps", "alloc", "abs"], FULL)),
                 l1=l1(dict(family="deps", invariants=["Inv_C02"], properties=["Prop_C02"]),
                       dict(family="alloc", invariants=["Inv_C02"], properties=["Prop_C02"]))),
-    "C03": dict(cases=both(unit2_cases(), step_cases(["alloc", "place"], FULL)),
+    "C03": dict(cases=both(unit2_cases(), step_cases(["alloc", "place", "conveyor"], FULL)),
                 l1=l1(dict(family="alloc", invariants=["Inv_C03"], properties=["Prop_C03"]),
                       dict(family="place", invariants=["Inv_C03"], properties=["Prop_C03"]))),
-    "C04": dict(cases=step_cases(["alloc", "place"], FULL),
+    "C04": dict(cases=step_cases(["alloc", "place", "conveyor"], FULL),
                 l1=l1(dict(family="alloc", invariants=["Inv_C04"], properties=["Prop_C04"]),
                       dict(family="place", invariants=["Inv_C04"], properties=["Prop_C04"]))),
     "C05": dict(cases=step_cases(["deps", "abs", "place"], FULL),
@@ -122,8 +122,9 @@ PLANS = {
                 l1=l1(dict(family="alloc", properties=["Prop_C11"]))),
     "C12": dict(cases=step_cases(["pert"], dict(facilities=False, components=False, kinds=["FS"])),
                 l1=l1(dict(family="pert", invariants=["Inv_C12"]))),
-    "C13": dict(cases=step_cases(["place"], FULL),
-                l1=l1(dict(family="placeflat", invariants=["Inv_C13"], properties=["Prop_C13"]))),
+    "C13": dict(cases=step_cases(["place", "conveyor"], FULL),
+                l1=l1(dict(family="placeflat", invariants=["Inv_C13"], properties=["Prop_C13"]),
+                      dict(family="conveyor", invariants=["Inv_C13"], properties=["Prop_C13"]))),
     "C14": dict(cases=step_cases(["place", "deps"], FULL),
                 l1=l1(dict(family="place", invariants=["Inv_C14"], properties=["Prop_C14"]))),
 }
